@@ -376,7 +376,7 @@ def apply_rules(piece, typemap=None, subs=(), must_fire=(), drop=(), keep_this=F
                     break
                 b = t.find('{', m.end() - 1) if t[m.end() - 1] != '{' else m.end() - 1
                 e = match_balanced(t, b, '{', '}')
-                t = t[:m.start()] + rep + t[e:]
+                t = t[:m.start()] + (rep(m) if callable(rep) else rep) + t[e:]
                 n += 1
                 if n > 50:
                     raise ExtractionError("block substitution does not terminate")
